@@ -208,6 +208,9 @@ def run(ctx: Ctx):
                        f"`{u(n)[:90]}` pads scores with something other than -inf (an unusable slot would outrank "
                        f"real paths)", rel, n.lineno, sample=u(n)[:120])
         col.floor(f"score_pad_sites[{tag}]", n_, 1)
+    # shallow fusion: each component keeps its own state through split / extract / mix / merge
+    from .search_common import fusion_component_lineage
+    fusion_component_lineage(ctx, "S3")
     plumbing(ctx, "S1")
     return dict(
         explanation=(
@@ -230,6 +233,7 @@ def _mutants():
     from selftest.mutate import Mutant as M
     D = "_decoding.py"
     return [
+        M("fused-second-state-from-first", "_lm.py", "prev_second = self.second.extract_by_src(prev_second, src)", "prev_second = self.second.extract_by_src(prev_first, src)", "own-state"),
         M("stale-state", D, "prev = self.lm.extract_by_src(in_next, next_src.flatten())",
           "prev = self.lm.extract_by_src(prev, next_src.flatten())", "extract_by_src(state of this step)"),
         M("state-not-reordered", D, "prev = self.lm.extract_by_src(in_next, next_src.flatten())", "prev = in_next",
